@@ -8,6 +8,9 @@
            aggregate batteries with the same _aggregate_battery_power_bounds, count every group
            once and use the whole group's batteries and inverters; the positional metric tables of
            the calculator agree with the PowerBounds fields.
+  C17.TOPO both sides take the partition of the batteries into groups, and the inverters of a group, from the same
+           entry of the same topology function's result (provenance of the maps the two aggregations index), and
+           nothing else writes or patches these maps.
   C17.ACC  order-domain: with advertised inclusion == enforced inclusion and advertised exclusion ⊇
            enforced exclusion, every non-zero P with SystemBounds.__contains__(P) true is admitted by
            _check_request, for adjust_power true and false.
@@ -32,8 +35,8 @@ from ..engine.report import AnalysisError, Run, first_line
 from ..engine.resolver import FuncNode, Program, walk_no_nested
 from ..engine.sympath import SymUnsupported, sym_block
 from ..engine.util import find_calls, method_call, u
-from ._c17_util import (FIELDS, GROUP, Side, agg_term, availability, bind_target, dewalrus_comprehensions, elem_of, fold_list_loops, nonempty_test, fold_loops, index_fields, is_name,
-                        loop_passes, name, path_follower, prepared, project_records, record_fields, returns_of, seg, set_elem, simple_call, splice, strip_doc)
+from ._c17_util import (FIELDS, GROUP, Side, agg_term, availability, bind_target, dewalrus_comprehensions, elem_of, fold_list_loops, nonempty_test, fold_loops, index_fields,
+                        inline_straightline, is_name, loop_passes, name, path_follower, prepared, project_records, record_fields, returns_of, seg, set_elem, simple_call, splice, strip_doc)
 
 MC = "timeseries.battery_pool._metric_calculator"
 BMM = "microgrid._power_distributing._component_managers._battery_manager"
@@ -675,6 +678,103 @@ def check_agg(run: Run, prog: Program) -> None:
               "the streamed SystemBounds does not carry the four aggregates in their places", node=afn.node, file=afn.file)
 
 
+# ------------------------------------------------------------------------------------------ C17.TOPO
+# the maps the two aggregations index (the names are those C17.AGG demands in `battery_sets = {…}` and in the reads
+# of a group's inverters): role -> attribute of the advertised side, attribute of the enforced side
+TOPO_MAPS = {"the battery groups (battery -> batteries of its group)": ("_bat_bats_map", "_bat_bats_map"),
+             "a group's inverters (battery -> its inverters)": ("_bat_inv_map", "_bat_invs_map")}
+_MUTATORS = ("update", "pop", "popitem", "setdefault", "clear", "__setitem__", "__delitem__")
+
+
+def _entry_of(prog: Program, module: Any, v: ast.AST) -> tuple[str, ...]:
+    """('entry', function, key) for `<call of a resolvable function>(…)[<literal key>]` (or `.get(<literal key>)`),
+    else ('other', text)."""
+    call, key = None, None
+    if isinstance(v, ast.Subscript) and isinstance(v.slice, ast.Constant) and isinstance(v.slice.value, str):
+        call, key = v.value, v.slice.value
+    elif isinstance(v, ast.Call) and isinstance(v.func, ast.Attribute) and v.func.attr == "get" and len(v.args) == 1 \
+            and not v.keywords and isinstance(v.args[0], ast.Constant) and isinstance(v.args[0].value, str):
+        call, key = v.func.value, v.args[0].value
+    if isinstance(call, ast.Call) and isinstance(call.func, (ast.Name, ast.Attribute)):
+        tgt = prog.resolve_name(module, u(call.func))
+        qual = getattr(tgt, "qual", None)
+        if qual is not None and hasattr(tgt, "node") and isinstance(tgt.node, ast.FunctionDef):
+            return ("entry", qual, key)  # type: ignore[return-value]
+    return ("other", first_line(u(v), 90))
+
+
+def map_sources(prog: Program, cls_qual: str, attr: str) -> tuple[Any, set[tuple[str, ...]], ast.AST]:
+    """Where `self.<attr>` of a class comes from: (the constructor, the set of sources, a statement to point at).
+    A source is ('entry', function, key) -- the value a constructor path leaves in the attribute is that entry of the
+    function's result, locals and straight-line private helpers substituted --, ('unset',) for a constructor path
+    that does not bind it, ('other', text) for any other value, and ('patched', where) for every further store,
+    item store or mutating call on the attribute anywhere in the class.  The topology function itself stays an
+    opaque call (it is the common source, not a helper to look into)."""
+    ci = prog.cls(cls_qual)
+    init = prog.func(f"{cls_qual}.__init__")
+    me = init.params[0]
+    out: set[tuple[str, ...]] = set()
+    node = inline_straightline(prog, init, copy.deepcopy(init.node))
+    for p in returns_of(node, init.qual):
+        ws = [e.node.elts[1] for e in p.effects if e.kind == "write"  # type: ignore[attr-defined]
+              and u(e.node.elts[0]) == f"{me}.{attr}"]  # type: ignore[attr-defined]
+        out.add(_entry_of(prog, init.module, ws[-1]) if ws else ("unset",))
+        for w in ws[:-1]:
+            out.add(("patched", f"bound more than once in {init.name} (line {getattr(w, 'lineno', '?')})"))
+    at: ast.AST = init.node
+    for m in ci.methods.values():
+        mine = m.params[0] if m.params else "self"
+
+        def is_map(e: ast.AST, mine: str = mine) -> bool:
+            return isinstance(e, ast.Attribute) and e.attr == attr and is_name(e.value, mine)
+        for n in ast.walk(m.node):
+            if is_map(n) and isinstance(n.ctx, (ast.Store, ast.Del)):  # type: ignore[attr-defined]
+                if m.node is init.node:
+                    at = next((s for s in ast.walk(init.node) if isinstance(s, (ast.Assign, ast.AnnAssign, ast.AugAssign))
+                               and any(t is n for t in ast.walk(s))), at) if at is init.node else at
+                else:
+                    out.add(("patched", f"bound again in {m.name} (line {n.lineno})"))
+            elif isinstance(n, ast.Subscript) and is_map(n.value) and isinstance(n.ctx, (ast.Store, ast.Del)):
+                out.add(("patched", f"item stored in {m.name} (line {n.lineno})"))
+            elif isinstance(n, ast.Call) and isinstance(n.func, ast.Attribute) and n.func.attr in _MUTATORS and is_map(n.func.value):
+                out.add(("patched", f"{n.func.attr}() in {m.name} (line {n.lineno})"))
+    return init, out, at
+
+
+def check_topo(run: Run, prog: Program) -> None:
+    """'For every battery/inverter topology (shared inverters, shared batteries) … the inclusion bounds advertised and
+    enforced are identical': the two aggregations are the same function of (groups, group -> inverters, data) by
+    C17.AGG, so they agree on every topology only if they are handed the same partition into groups and the same
+    inverter set per group.  The pool and the distributor build their maps in two constructors; the rule demands the
+    same provenance on both sides rather than judging two graph computations equivalent."""
+    sides = (("advertised", f"{MC}:PowerBoundsCalculator"), ("enforced", f"{BMM}:BatteryManager"))
+    for role, attrs in TOPO_MAPS.items():
+        got = [map_sources(prog, cls, attr) for (_label, cls), attr in zip(sides, attrs)]
+        for init, _s, _at in got:
+            run.analysed(init.qual)
+        (a_init, a_src, a_at), (e_init, e_src, e_at) = got
+        good = len(a_src) == 1 and a_src == e_src and next(iter(a_src))[0] == "entry"
+        # point at the side that left the common source (the advertised one when both or neither did)
+        a_clean = len(a_src) == 1 and next(iter(a_src))[0] == "entry"
+        e_clean = len(e_src) == 1 and next(iter(e_src))[0] == "entry"
+        init, at = (e_init, e_at) if a_clean and not e_clean else (a_init, a_at)
+
+        def show(src: set[tuple[str, ...]]) -> str:
+            return " | ".join(f"{s[1].split(':')[-1]}(…)[{s[2]!r}]" if s[0] == "entry" else
+                              "not bound on a constructor path" if s[0] == "unset" else f"{s[0]}: {s[1]}" for s in sorted(src))
+        run.check(good, "C17.TOPO", init.qual, at if at is not init.node else f"{init.qual}: self.{attrs[0]}",
+                  f"the pool (advertised bounds) and the distributor (enforced bounds) do not take {role} from the same source: "
+                  f"advertised self.{attrs[0]} = {show(a_src)}; enforced self.{attrs[1]} = {show(e_src)}.  Both must be one and "
+                  "the same entry of the same topology function's result, bound once in the constructor and never patched.  A "
+                  "map rebuilt on one side (batteries with *equal* inverter sets, groups cut down to the pool's batteries, "
+                  "another entry of the result, entries added or removed later) agrees for 1:1 pairs and for batteries that "
+                  "share all their inverters, but not for partially shared ones (A behind I1+I2, B behind I2 only): the pool "
+                  "then sums over other groups / inverter sets than the distributor, the advertised inclusion bounds differ "
+                  "from the enforced ones and a power inside the advertised bounds is answered OutOfBounds",
+                  node=at, file=init.file,
+                  instance=f"{role}: both sides read {show(a_src)}")
+
+
 def check_acc(run: Run, prog: Program) -> None:
     from ._admission import explore_admission, reached_bounds
     from .c03 import _report_orderings
@@ -766,6 +866,12 @@ CONTROLS = [
     ("the advertised inverter totals are summed with the built-in sum()", MC,
      "                    math.fsum(bound.inclusion_lower for bound in inverter_bounds),\n",
      "                    sum(bound.inclusion_lower for bound in inverter_bounds),\n", "C17.EXACT"),
+    ("the pool builds its battery groups itself (batteries with equal inverter sets)", MC,
+     '        self._bat_bats_map = mappings["bat_bats"]\n',
+     "        self._bat_bats_map = {\n            b: frozenset(o for o, i in self._bat_inv_map.items() if i == v)\n"
+     "            for b, v in self._bat_inv_map.items()\n        }\n", "C17.TOPO"),
+    ("the distributor looks a group's inverters up in another entry of the topology maps", BMM,
+     '        self._bat_invs_map = maps["bat_invs"]\n', '        self._bat_invs_map = maps["inv_invs"]\n', "C17.TOPO"),
 ]
 
 
@@ -993,6 +1099,23 @@ def structural_controls(prog: Program) -> list[tuple[str, str, str, str, str]]: 
             pad = " " * last[-1].col_offset
             add(CONTROLS[11][0], BMM, [(last[-1], f"if not {req}.adjust_power:\n{pad}    return OutOfBounds(request={req}, "
                                                    f"bounds=None)\n{pad}return {seg(bsrc, last[-1].value)}")])
+    # 13./14. the topology maps: the pool derives its groups from its own battery -> inverters map; the distributor
+    #     reads a group's inverters from another entry of the builder's result
+    def map_assign(cls_qual: str, attr: str) -> ast.Assign | None:
+        ini = prog.cls(cls_qual).methods.get("__init__")
+        hits = [s for s in ast.walk(ini.node) if isinstance(s, ast.Assign) and len(s.targets) == 1
+                and isinstance(s.targets[0], ast.Attribute) and s.targets[0].attr == attr] if ini is not None else []
+        return hits[0] if len(hits) == 1 else None
+
+    (a_grp, _e_grp), (a_inv, e_inv) = TOPO_MAPS.values()
+    grp, inv = map_assign(f"{MC}:PowerBoundsCalculator", a_grp), map_assign(f"{MC}:PowerBoundsCalculator", a_inv)
+    if grp is not None and inv is not None and inv.lineno < grp.lineno:
+        m = seg(msrc, inv.targets[0])
+        add(CONTROLS[14][0], MC, [(grp.value, f"{{b: frozenset(o for o, i in {m}.items() if i == v) for b, v in {m}.items()}}")])
+    einv = map_assign(f"{BMM}:BatteryManager", e_inv)
+    if einv is not None and isinstance(einv.value, ast.Subscript) and isinstance(einv.value.slice, ast.Constant) \
+            and isinstance(einv.value.slice.value, str):
+        add(CONTROLS[15][0], BMM, [(einv.value.slice, '"inv_invs"' if einv.value.slice.value != "inv_invs" else '"inv_bats"')])
     return [(nm, module, *built.get(nm, (old, new)), rule) for nm, module, old, new, rule in CONTROLS]
 
 
@@ -1053,6 +1176,7 @@ _seen_aug: list[ast.AST] = []
 
 def run_rules(run: Run, prog: Program) -> None:
     check_agg(run, prog)
+    check_topo(run, prog)
     check_acc(run, prog)
     check_only(run, prog)
     check_dist(run, prog)
@@ -1063,6 +1187,9 @@ def check(run: Run, prog: Program, tier: str) -> str:
     run.rule("C17.AGG", "advertised vs enforced aggregation terms: inclusion identical; exclusion related by the "
              "Σmax>=maxΣ lemmas; same battery aggregation; every group once with all its members (left out only "
              "when it has no data); positional metric tables agree")
+    run.rule("C17.TOPO", "the pool and the distributor take the battery groups and a group's inverters from the same entry of "
+             "the same topology function's result (bound once in the constructor, never patched): the same partition on "
+             "every topology, incl. partially shared inverters")
     run.rule("C17.ACC", "for every ordering: P != 0 inside the advertised bounds => _check_request admits it")
     run.rule("C17.ONLY", "OutOfBounds is built only inside the admission test, whose every OutOfBounds path C17.ACC "
              "decides; no other code on the request path may answer out-of-bounds")
@@ -1074,12 +1201,13 @@ def check(run: Run, prog: Program, tier: str) -> str:
     run_rules(run, prog)
     run.floor("C17.EXACT", 4)
     run.floor("C17.AGG", 14)
+    run.floor("C17.TOPO", 2)
     run.floor("C17.ACC", 30)
     run.floor("C17.DIST", 4)
     run.floor("C17.ONLY", 1)
     from ..engine.controls import run_controls
 
-    parts = {"C17.AGG": check_agg, "C17.ACC": check_acc, "C17.DIST": check_dist, "C17.ONLY": check_only, "C17.EXACT": check_exact}
+    parts = {"C17.AGG": check_agg, "C17.TOPO": check_topo, "C17.ACC": check_acc, "C17.DIST": check_dist, "C17.ONLY": check_only, "C17.EXACT": check_exact}
     run_controls(run, structural_controls(prog), run_rules, tier, base_prog=prog, select=lambda rule: parts[rule])
     run.assume("inverter exclusion bounds satisfy lower <= 0 <= upper; lattice lemmas Σ_g max(a,b) >= "
                "max(Σa, Σb), Σ_g min(a,b) <= min(Σa, Σb), min_i x_i <= Σ_i x_i for x >= 0")
